@@ -189,7 +189,7 @@ pub fn any_component(path: &Path) -> (r: bool)
 //@fn src/work_dir.rs is_in_work_dir#closure0 as=component_is_work_dir params=`component: Component` bind rty=`bool` ret=r
 //@contract
     ensures
-        /*[C15.workdir-watch]*/ r == comp_is_wd(component.model()),
+        /*[C15.workdir-watch,C16.workdir]*/ r == comp_is_wd(component.model()),
 //@pre
         proof { reveal_strlit(".zinoma"); assert(".zinoma"@ =~= wd()); }
 //@end
@@ -198,7 +198,7 @@ pub fn any_component(path: &Path) -> (r: bool)
 //@closure 0 skeleton=`path.components().any(<CLOSURE>)` becomes=`any_component(path)`
 //@contract
     ensures
-        /*[C15.workdir-watch]*/ r == in_work_dir(path.buf()),
+        /*[C15.workdir-watch,C16.workdir]*/ r == in_work_dir(path.buf()),
 //@end
 
 // ===========================================================================
@@ -609,7 +609,7 @@ pub proof fn lemma_watch_same_rule(root: PathBuf, e: DirEntry)
         // recorded finding [C15.watch-scope]: the listed path itself lies below a directory named `.zinoma`
         forall|i: int| 0 <= i < comps(root).len() - 1 ==> !comp_is_wd(#[trigger] comps(root)[i]),
     ensures
-        /*[C15.watch-same]*/ in_work_dir(e.path()) == inside_work_dir(e),
+        /*[C15.watch-same,C16.workdir]*/ in_work_dir(e.path()) == inside_work_dir(e),
 {
     lemma_watch_rule_general(root, e);
 }
